@@ -14,7 +14,7 @@ CHUNK = 2
 RULE = ('Cases: unambiguous tables of 2..12 samples (a few per run of 13..48 samples and 700..5000 rows or 3..12 samples and 12000..20000 rows, and of 256..520 samples with rows present in exactly 255/256/257 of them; all bases; constant rows, which the program pre-filters and adds back; '
         'rows with gaps in every missingness pattern; duplicated samples; rows below a frequency threshold next to rows above '
         'it in >=3 samples) constructed through `ska build`, and planted-SNP genome sets.  `ska distance [--min-freq j/n or 0.3/0.45/0.6/0.85] '
-        '[--allow-ambiguous] [--threads 1|2|4]` is compared with the model in exact rationals: SNPs = rows present in both and '
+        '[--allow-ambiguous] [--threads 1|2|4|8|16]` is compared with the model in exact rationals: SNPs = rows present in both and '
         'different, mismatch = rows in exactly one / rows in at least one, over rows present in >= ceil(f*n) samples; tolerance '
         'half a unit of the last printed digit.  Also: every unordered pair exactly once in input order (also when two samples carry the same name), identical samples at '
         '(0,0), proportion in [0,1], invariance under sample permutation and thread count, and the same figures for the same table held in a file with a history (extra samples built in and deleted again; two halves merged), written with -o over an existing longer file.  Non-trivial: some pair has SNPs > 0 '
@@ -22,7 +22,7 @@ RULE = ('Cases: unambiguous tables of 2..12 samples (a few per run of 13..48 sam
 ASSUMPTIONS = ['tables hold only A/C/G/T and gaps (the statement is about files without ambiguity codes)',
                'min-freq passed as a short decimal; exact rational used by the oracle']
 REQUIRED = {t: ['minfreq_drops_rows_with_3plus_samples', 'constant_rows', 'identical_sample_pairs', 'permutation_checked',
-                'threads:1', 'threads:2', 'threads:4', 'allow_ambiguous', 'pairs_checked',
+                'threads:1', 'threads:2', 'threads:4', 'threads:8', 'threads:16', 'more_threads_than_samples_on_tables_over_32768_rows', 'allow_ambiguous', 'pairs_checked',
                 'history:delete', 'history:merge', 'history_allow_ambiguous_minfreq_drops', 'large_tables', 'tables_over_8192_rows', 'tables_of_256+_samples', 'files_with_a_repeated_sample_name', 'files_under_a_bare_name_next_to_a_sibling', 'tables_of_513+_samples', 'library_second_calls_compared'] for t in ('quick', 'thorough')}
 
 
@@ -40,7 +40,7 @@ def plan(tier, seed, rng, scale):
                       'seed': rng.getrandbits(32), 'kind': 'genomes' if i % 5 == 0 else 'table'})
     for i in range(int((6 if tier == 'quick' else 50) * max(scale, 0.25))):
         # many samples and thousands of rows: pair loops, chunked passes and filters beyond their small-input paths
-        nr = [700, 2000, 5000, 12000, 20000, 12000][i % 6]
+        nr = [700, 2000, 5000, 12000, 40000, 30000][i % 6]
         descs.insert(20 + 7 * i, {'ns': rng.randint(13, 48) if nr <= 5000 else rng.randint(3, 12), 'k': rng.choice([15, 31, 33]), 'seed': rng.getrandbits(32),
                                   'kind': 'table', 'nrows': nr})
     for i in range(int((3 if tier == 'quick' else 12) * max(scale, 0.34))):
@@ -233,7 +233,11 @@ def run_case(desc, ctx):
         freqs += ['0.3', '0.45', '0.6', '0.85']          # f*n not integral for most n: ceil matters
         settings = []
         for rep in range(4 if variant == 'rel' else 1):
-            settings.append((rng.choice(freqs) if rep else rng.choice(['0', '1'] + freqs), rng.random() < 0.5, rng.choice([1, 2, 4])))
+            settings.append((rng.choice(freqs) if rep else rng.choice(['0', '1'] + freqs), rng.random() < 0.5, rng.choice([1, 2, 4, 8, 16])))
+        if (desc.get('nrows') or 0) > 16384:
+            # more threads than samples on a table of several times 2^14 rows: whatever is then split by rows instead of by pairs
+            settings[0] = ('0', settings[0][1], 16)
+            settings[1] = (settings[1][0], settings[1][1], 16)
         for (mf, aa, thr) in settings:
             args = ['--min-freq', mf, '--threads', thr] + (['--allow-ambiguous'] if aa else [])
             a = ctx.sh(b, 'distance', ctx.path('t.skf'), *args)
@@ -245,6 +249,8 @@ def run_case(desc, ctx):
             else:
                 res.evals += 1
                 res.count('threads:%d' % thr)
+                if thr > ns and len(rows) > 32768:
+                    res.count('more_threads_than_samples_on_tables_over_32768_rows')
                 if aa:
                     res.count('allow_ambiguous')
             sig = 'C14:%s:%s' % (desc['kind'], 'minfreq' if Fraction(mf) > 0 else 'nofreq')
